@@ -5,6 +5,7 @@ import (
 	"errors"
 	"fmt"
 	"math/rand/v2"
+	"reflect"
 	"runtime"
 	"sync"
 	"sync/atomic"
@@ -391,7 +392,16 @@ func c07Nested(rep *vk.Report, idx int) {
 	outer := timeout.Builder[int](time.Hour).OnTimeoutExceeded(func(failsafe.ExecutionDoneEvent[int]) { outerCalls.Add(1) }).Build()
 	inner := timeout.Builder[int](L).OnTimeoutExceeded(func(failsafe.ExecutionDoneEvent[int]) { innerCalls.Add(1) }).Build()
 	var outerExec failsafe.Execution[int]
-	probe := &probePolicy{before: func(e failsafe.Execution[int]) any { outerExec = e; return nil }}
+	// the probe sits directly inside the outer Timeout: it sees the execution the outer Timeout hands inwards and the
+	// result that comes back to it
+	var innerRes int
+	var innerErr error
+	probe := &probePolicy{
+		before: func(e failsafe.Execution[int]) any { outerExec = e; return nil },
+		after: func(_ failsafe.Execution[int], _ any, pr *common.PolicyResult[int]) {
+			innerRes, innerErr = pr.Result, pr.Error
+		},
+	}
 	var pols []failsafe.Policy[int]
 	wantInner := int64(1)
 	switch kind {
@@ -406,9 +416,9 @@ func c07Nested(rep *vk.Report, idx int) {
 		pols = []failsafe.Policy[int]{outer, probe}
 		wantInner = 0
 	}
-	_, err := failsafe.NewExecutor[int](pols...).GetWithExecution(func(e failsafe.Execution[int]) (int, error) {
+	res, err := failsafe.NewExecutor[int](pols...).GetWithExecution(func(e failsafe.Execution[int]) (int, error) {
 		if wantInner == 0 {
-			return 0, fmt.Errorf("downstream: %w", timeout.ErrExceeded)
+			return 42, fmt.Errorf("downstream: %w", timeout.ErrExceeded)
 		}
 		<-e.Canceled()
 		return 0, errE2
@@ -418,6 +428,11 @@ func c07Nested(rep *vk.Report, idx int) {
 	cs := map[string]any{"kind": kind, "inner_limit_ns": int64(L)}
 	if !errors.Is(err, timeout.ErrExceeded) || outerCalls.Load() != 0 || innerCalls.Load() != wantInner || (outerExec != nil && outerExec.IsCanceled()) {
 		rep.Violate(idx, "C07/pass-through-timeout-error-treated-as-own", fmt.Sprintf("%s (inner limit %v): result %v, outer (1h) Timeout's listener called %d times (want 0), inner listener %d times (want %d), outer Timeout's execution cancelled=%v", kind, L, err, outerCalls.Load(), innerCalls.Load(), wantInner, outerExec != nil && outerExec.IsCanceled()), cs)
+		return
+	}
+	// the outer Timeout did not expire: what came back to it is what the caller gets, value and error unchanged
+	if res != innerRes || !reflect.DeepEqual(err, innerErr) {
+		rep.Violate(idx, "C07/inner-result-not-returned-unchanged", fmt.Sprintf("%s (inner limit %v): the outer (1h) Timeout was handed (%d, %v) [%T] from inside and returned (%d, %v) [%T]", kind, L, innerRes, innerErr, innerErr, res, err, err), cs)
 		return
 	}
 	rep.Count("nested_timeout_scenarios", 1)
